@@ -733,6 +733,12 @@ func main() {
 		os.Exit(2)
 	}
 	src, dst, vrtSrc := os.Args[1], os.Args[2], os.Args[3]
+	if r, err := filepath.EvalSymlinks(src); err == nil {
+		src = r // file names reported by go/packages are resolved paths
+	}
+	if a, err := filepath.Abs(src); err == nil {
+		src = a
+	}
 	must := func(err error) {
 		if err != nil {
 			fmt.Fprintln(os.Stderr, "weave:", err)
